@@ -14,8 +14,13 @@ from __future__ import annotations
 import itertools
 import json
 import logging
+import os
 import re
+import select
 import signal
+import subprocess
+import sys
+import time
 
 ID = "C12"
 LEVEL_TEXT = ("Theorems over all line sequences, all option combinations and all parents: the Google, Numpy and Sphinx main loops "
@@ -34,7 +39,7 @@ LEVEL_NOTE = ("Trusted: Coq kernel, extraction, the harness feature extractor (i
               "all repaired by fix: commits and kept as must-pass corpus cases. "
               "No known finding is left: C12-F1 (Numpy returned no section for the empty docstring) is repaired as well.")
 MODEL = ("Model.C12_docstrings", "run_C12")
-COQ_TARGETS = ["Proofs/C12_docstrings.vo"]
+COQ_TARGETS = ["Proofs/C12_docstrings.vo", "Proofs/C12_regex.vo"]
 RULE = ("texts of <=12 lines (some longer) assembled from section keywords, separators, indentation levels, item syntaxes and prose: "
         "(a) exhaustive sequences of <=3 line classes (thorough: <=4) from a 13-letter alphabet per style, (b) seeded random fragment sequences, "
         "(c) structured mostly-valid docstrings per style with seeded perturbations (dropped blank lines, shifted indents), "
@@ -394,23 +399,50 @@ def sections_agree(style, exp, got) -> bool:
 
 
 # ---------------------------------------------------------------- evaluation of a batch of cases
-def evaluate(ctx, cases, stream):
-    """cases: list of (style, text, opts, parent_kind)."""
+def evaluate(ctx, cases, stream, runner=None, model_max_len=None):
+    """cases: list of (style, text, opts, parent_kind).  Returns the cases on which the implementation hung or raised."""
     if ctx.stats["hangs"] >= MAX_HANGS:
-        return          # the non-termination is already reported; every further case would cost the watchdog delay
+        return []       # the non-termination is already reported; every further case would cost the watchdog delay
+    runner = runner or run_impl
     impl = []
+    bad = []
     for c in cases:
-        r = run_impl(*c)
+        r = runner(*c)
         impl.append(r)
+        if r["status"] != "ok":
+            bad.append(c)
         if r["status"] == "hang":
             ctx.count("hangs")
             if ctx.stats["hangs"] >= MAX_HANGS:
                 cases = cases[:len(impl)]
                 break
-    outs = ctx.model([model_input(c[0], c[2], c[3], r["lines"]) for c, r in zip(cases, impl)])
+    # a case without result has no lines to give to the model: the direct evaluation below reports it
+    with_model = [i for i, r in enumerate(impl) if r["lines"] and ctx.driver is not None
+                  and (model_max_len is None or max(len(l) for l in r["lines"]) <= model_max_len)]
+    mouts = ctx.model([model_input(cases[i][0], cases[i][2], cases[i][3], impl[i]["lines"]) for i in with_model])
+    outs = [None] * len(impl)
+    for i, mo in zip(with_model, mouts):
+        outs[i] = mo
     for (style, text, opts, pk), r, mo in zip(cases, impl, outs):
         lines = r["lines"]
         case = {"style": style, "text": text, "options": opts, "parent": pk}
+        if mo is None:
+            ctx.case(case, False)
+            ctx.observe("stream", stream)
+            ctx.observe("impl_status", r["status"] if r["status"] == "ok" else f"{r['status']}:{r['error']}")
+            ctx.count("cases")
+            ctx.count("cases_direct_only")
+            for p in r["problems"]:
+                ctx.property_failure(case, {"problem": p, "lines": [l[:200] for l in lines[:14]]})
+            if r["status"] == "ok" and r["canon"] is not None and is_plain(style, lines, opts, pk):
+                ctx.count("plain_cases")
+                want = plain_expectation(style, lines, opts, pk)
+                got = r["canon"]
+                good = (got == [] if want is None else (len(got) == 1 and got[0][0] == "text" and norm_text(got[0][1]) == want))
+                if not good:
+                    ctx.property_failure(case, {"problem": "plain text does not come back as a single text section",
+                                                "sections": [str(x)[:200] for x in got[:4]]})
+            continue
         ok_model = isinstance(mo, list) and len(mo) == 3 and mo[0] in ("ok", "err")
         nontrivial = ok_model and not (mo[0] == "ok" and len(mo[2]) == 1 and mo[2][0][0] == "text")
         ctx.case(case, nontrivial)
@@ -464,6 +496,292 @@ def evaluate(ctx, cases, stream):
             if not good:
                 ctx.property_failure(case, {"problem": "plain text does not come back as a single text section", "sections": got[:4],
                                             "expected_text": want})
+    return bad
+
+
+# ---------------------------------------------------------------- (T) translator
+EX = None          # harness.translate.c12_regexes.Extract of the tree under test; None when the translator failed closed
+TRANSLATOR_NAME = "harness/translate/c12_regexes.py"
+
+
+def translate(ctx):
+    """Regenerate coq/Gen/C12_regexes.v (every regex of the parsers as an AST) and coq/Gen/C12_tables.v (keyword tables)."""
+    global EX
+    from harness.translate import c12_regexes
+    EX = None
+    EX = c12_regexes.translate(ctx)
+
+
+# ---------------------------------------------------------------- implementation in a subprocess (per-case watchdog)
+WORKER_CODE = "import sys; sys.path.insert(0, %r); from harness.props import c12; c12.worker_main()"
+WORKER_LIMIT = 8.0     # seconds per case before the child is killed; its own 2 s alarm normally answers first
+
+
+def worker_main():
+    logging.getLogger("griffe").setLevel(logging.CRITICAL)
+    logging.getLogger("_griffe").setLevel(logging.CRITICAL)
+    for line in sys.stdin:
+        c = json.loads(line)
+        r = run_impl(c["style"], c["text"], c["options"], c["parent"])
+        r.pop("sections", None)
+        sys.stdout.write(json.dumps(r) + "\n")
+        sys.stdout.flush()
+
+
+class Worker:
+    """Runs run_impl in a child interpreter; a case that does not answer within WORKER_LIMIT gets the child killed."""
+
+    def __init__(self):
+        self.p = None
+        self.killed = 0
+
+    def start(self):
+        from harness.common import framework
+        env = dict(os.environ, PYTHONPATH=f"{framework.REPO}/src:{framework.VERIF}", PYTHONHASHSEED="0")
+        self.p = subprocess.Popen([sys.executable, "-c", WORKER_CODE % str(framework.VERIF)], stdin=subprocess.PIPE,
+                                  stdout=subprocess.PIPE, stderr=subprocess.DEVNULL, env=env, text=True, bufsize=1)
+
+    def stop(self):
+        if self.p is not None:
+            try:
+                self.p.kill()
+                self.p.wait(timeout=5)
+            except Exception:  # noqa: BLE001
+                pass
+            self.p = None
+
+    def __call__(self, style, text, opts, pk):
+        if self.p is None or self.p.poll() is not None:
+            self.start()
+        dead = {"lines": [], "problems": [], "canon": None, "status": "ok", "error": None, "where": None, "sections": None}
+        try:
+            self.p.stdin.write(json.dumps({"style": style, "text": text, "options": opts, "parent": pk}) + "\n")
+            self.p.stdin.flush()
+            ready, _, _ = select.select([self.p.stdout], [], [], WORKER_LIMIT)
+        except (BrokenPipeError, OSError):
+            ready = [1]
+        if not ready:
+            self.stop()
+            self.killed += 1
+            dead.update(status="hang", error=f"no result within {WORKER_LIMIT} s (child interpreter killed)",
+                        problems=[f"does not terminate within {WORKER_LIMIT} s"])
+            return dead
+        line = ""
+        try:
+            line = self.p.stdout.readline()
+        except Exception:  # noqa: BLE001
+            pass
+        if not line:
+            rc = self.p.poll()
+            self.stop()
+            dead.update(status="err", error="InterpreterDied", problems=[f"the interpreter died while parsing (exit status {rc})"])
+            return dead
+        r = json.loads(line)
+        r["sections"] = None
+        return r
+
+
+# ---------------------------------------------------------------- adversarial inputs derived from the regex ASTs
+ADV_CANDIDATES = "xa 0_-:,()*#<>=!.\t{}[]'\"`~"
+
+
+def _cls_match_py(c, ch, ic):
+    if c == ("any",):
+        return ch != "\n"
+    _, neg, items = c
+    r = False
+    for it in items:
+        if it[0] == "lit":
+            r |= ord(ch) == it[1] or (ic and ch.isascii() and ch.isalpha() and it[1] in (ord(ch.lower()), ord(ch.upper())))
+        elif it[0] == "range":
+            r |= any(it[1] <= ord(x) <= it[2] for x in ({ch, ch.lower(), ch.upper()} if ic and ch.isascii() else {ch}))
+        else:
+            v = {"word": ch.isalnum() or ch == "_", "space": ch.isspace(), "digit": ch.isdecimal()}[it[1]]
+            r |= v != it[2]
+    return r != neg
+
+
+def _reps(c, ic, k):
+    return [ch for ch in ADV_CANDIDATES if _cls_match_py(c, ch, ic)][:k]
+
+
+def _min_word(t, ic):
+    tag = t[0]
+    if tag == "chr":
+        r = _reps(t[1], ic, 1)
+        return r[0] if r else "\x01"
+    if tag == "seq":
+        return _min_word(t[1], ic) + _min_word(t[2], ic)
+    if tag == "alt":
+        return _min_word(t[1], ic)
+    if tag == "grp":
+        return _min_word(t[2], ic)
+    return ""
+
+
+def _classes(t):
+    tag = t[0]
+    if tag == "chr":
+        return [t[1]]
+    if tag in ("seq", "alt"):
+        return _classes(t[1]) + _classes(t[2])
+    if tag in ("opt", "star", "grp"):
+        return _classes(t[2])
+    return []
+
+
+def _quantifiers(t, ic, pre=""):
+    """(shortest text that leads the matcher to the quantifier, its body) for every unbounded quantifier, outermost first"""
+    tag = t[0]
+    if tag == "seq":
+        yield from _quantifiers(t[1], ic, pre)
+        yield from _quantifiers(t[2], ic, pre + _min_word(t[1], ic))
+    elif tag == "alt":
+        yield from _quantifiers(t[1], ic, pre)
+        yield from _quantifiers(t[2], ic, pre)
+    elif tag in ("opt", "grp"):
+        yield from _quantifiers(t[2], ic, pre)
+    elif tag == "star":
+        yield pre, t[2]
+        yield from _quantifiers(t[2], ic, pre)
+
+
+def adversarial_lines(rx, lengths):
+    """For every unbounded quantifier of the regex: the text that reaches it, then a long run of (a) the shortest word of its
+    body, (b) one or two characters of every class in its body, then a suffix on which what follows the quantifier fails:
+    nothing, one character of each class of the regex, a character outside all of them; with and without further text."""
+    ic = rx.ic
+    sufs = [""]
+    for c in _classes(rx.tree):
+        for ch in _reps(c, ic, 1):
+            if ch not in sufs:
+                sufs.append(ch)
+    sufs = sufs[:7] + ["\x01"]
+    out = []
+    seen = set()
+    for pre, body in _quantifiers(rx.tree, ic):
+        pumps = []
+        w = _min_word(body, ic)
+        if w:
+            pumps.append(w)
+        for c in _classes(body):
+            for ch in _reps(c, ic, 2):
+                if ch not in pumps:
+                    pumps.append(ch)
+        for pump in pumps[:3]:
+            for n in lengths:
+                for suf in sufs:
+                    for tail in ("", " tail"):
+                        s = pre + pump * n + suf + tail
+                        if s not in seen:
+                            seen.add(s)
+                            out.append(s)
+    return out
+
+
+def generic_adversarial_lines(lengths):
+    """Not derived from the ASTs (so still there when the translator fails closed): runs of one character after a short opening."""
+    out = []
+    for pre in ("", "(", "x (", "x: ", "x : ", ":", "# doctest: "):
+        for ch in "x ,:(-\t*":
+            for n in lengths:
+                for suf in ("", ")", ":", "!"):
+                    out.append(pre + ch * n + suf)
+    return out
+
+
+ADV_CONTEXTS = {
+    "google": {
+        "item": "Summary.\n\n{H}:\n    {L}\n",
+        "description": "Summary.\n\n{H}:\n    x: {L}\n",
+        "annotation": "Summary.\n\n{H}:\n    x ({L}): d\n",
+        "continuation": "Summary.\n\n{H}:\n    x: d\n        {L}\n",
+        "doctest": "Summary.\n\nExamples:\n    >>> {L}\n    {L}\n",
+        "line": "Summary.\n\n{L}\n",
+    },
+    "numpy": {
+        "item": "Summary.\n\n{H}\n---\n{L}\n    d\n",
+        "annotation": "Summary.\n\n{H}\n---\nx : {L}\n    d\n",
+        "description": "Summary.\n\n{H}\n---\nx\n    {L}\n",
+        "doctest": "Summary.\n\nExamples\n---\n>>> {L}\n{L}\n",
+        "line": "Summary.\n\n{L}\n",
+    },
+    "sphinx": {
+        "name": "Summary.\n\n:param {L}: d\n",
+        "value": "Summary.\n\n:param x: {L}\n:type x: {L}\n",
+        "line": "Summary.\n\n{L}\n",
+    },
+}
+ADV_HEADERS = {"google": ["Args", "Returns", "Yields", "Receives", "Raises", "Attributes", "Functions"],
+               "numpy": ["Parameters", "Returns", "Yields", "Receives", "Raises", "Attributes", "Functions", "Deprecated"],
+               "sphinx": [""]}
+
+
+def adversarial_docstrings(style, line):
+    """(one docstring with the line in every role, the single-role docstrings used to narrow a failure down)"""
+    singles = []
+    for role, tpl in ADV_CONTEXTS[style].items():
+        heads = ADV_HEADERS[style] if "{H}" in tpl else [""]
+        for h in heads:
+            singles.append((f"{role}/{h}" if h else role, tpl.replace("{H}", h).replace("{L}", line)))
+    combined = "Summary.\n\n" + "\n".join(d.split("\n\n", 1)[1] for _, d in singles)
+    return combined, singles
+
+
+def adversarial_stream(ctx):
+    """Per regex of the parsers (and a generic set): long runs in front of failing suffixes, every docstring parsed in a child
+    interpreter under a per-case watchdog.  A docstring that hangs or crashes is narrowed down to one role and reported."""
+    lengths = [30, 1000] if ctx.quick else [30, 300, 5000]
+    per_style = {st: [] for st in STYLES}
+    if EX is not None:
+        seen = set()
+        for key, rx in EX.regexes.items():
+            st = key.split(".")[0]
+            st = st if st in STYLES else None
+            if (st, rx.pattern) in seen:
+                continue
+            seen.add((st, rx.pattern))
+            ls = adversarial_lines(rx, lengths)
+            ctx.observe("adversarial_lines_per_regex", key, len(ls))
+            for target in ([st] if st else STYLES):
+                per_style[target] += ls
+    else:
+        ctx.notes.append("adversarial stream: translator failed, generic lines only")
+    gen = generic_adversarial_lines(lengths)
+    for st in STYLES:
+        per_style[st] += gen
+    worker = Worker()
+    try:
+        for st in STYLES:
+            lines = list(dict.fromkeys(per_style[st]))
+            cases = []
+            for i, line in enumerate(lines):
+                combined, _ = adversarial_docstrings(st, line)
+                opts = {} if i % 3 else random_opts(ctx.rng, st)
+                cases.append((st, combined, opts, PARENTS[i % len(PARENTS)]))
+            for b in batches(cases, 400):
+                bad = evaluate(ctx, b, "adversarial", runner=worker, model_max_len=2000)
+                for (style, text, opts, pk) in bad[:2]:
+                    # narrow down: which single role of which line
+                    line = lines[cases.index((style, text, opts, pk))]
+                    _, singles = adversarial_docstrings(style, line)
+                    for role, doc in sorted(singles, key=lambda x: len(x[1])):
+                        if ctx.stats["hangs"] >= MAX_HANGS + 4:
+                            break
+                        r = worker(style, doc, opts, pk)
+                        ctx.observe("adversarial_narrowing", role + ":" + r["status"])
+                        if r["problems"]:
+                            if r["status"] == "hang":
+                                ctx.count("hangs")
+                            ctx.property_failure({"style": style, "text": doc, "options": opts, "parent": pk},
+                                                 {"problem": r["problems"][0], "role": role, "line_length": len(line)})
+                            break
+                if ctx.stats["hangs"] >= MAX_HANGS:
+                    return
+    finally:
+        worker.stop()
+        ctx.count("worker_killed", worker.killed)
+        ctx.count("adversarial_done")
 
 
 # ---------------------------------------------------------------- generators
@@ -700,6 +1018,7 @@ def explore(ctx):
             cases.append((style, text, random_opts(rng, style), rng.choice(PARENTS)))
     for b in batches(cases, 3000):
         evaluate(ctx, b, "malformed")
+    adversarial_stream(ctx)
     if not ctx.quick:
         sample = []
         for _ in range(30):
@@ -734,6 +1053,14 @@ def search(ctx):
                 return True
         return False
 
+    if not ctx.stats["adversarial_done"]:
+        drv, ctx.driver = ctx.driver, None        # implementation only
+        try:
+            adversarial_stream(ctx)
+        finally:
+            ctx.driver = drv
+        if ctx.prop_failures:
+            return
     for case in exhaustive_cases(ctx, 4):
         if direct(case):
             return
